@@ -282,7 +282,8 @@ theorem notifyLoop_frame {rec : Rec} (hrec : FrameRec rec) (k : Key) (old new : 
 theorem notifyT_frame {rec : Rec} (hrec : FrameRec rec) {k : Key} {old new : V} {s s' : St} {r : R}
     (h : notifyT rec k old new s = some (s', r)) : Frame s s' := by
   unfold notifyT at h
-  cases hg : notifyLoop rec k old new ((s.regs k.1).subs k.2 .change) s with
+  simp only at h
+  cases hg : notifyLoop rec k old new (((s.regs k.1).subs k.2 .change).filter Sub.isDep) s with
   | none => simp [hg] at h
   | some res =>
     obtain ⟨s1, r1⟩ := res
@@ -295,8 +296,21 @@ theorem notifyT_frame {rec : Rec} (hrec : FrameRec rec) {k : Key} {old new : V} 
       exact f1
     | ok act =>
       simp only at h
-      injection h with h; injection h with h1 _; subst h1
-      exact f1.trans (Frame.of_eq rfl rfl rfl)
+      cases hg2 : notifyLoop rec k old new (((s.regs k.1).subs k.2 .change).filter fun x => !x.isDep) s1 with
+      | none => simp [hg2] at h
+      | some res2 =>
+        obtain ⟨s2, r2⟩ := res2
+        rw [hg2] at h
+        have f2 := f1.trans (notifyLoop_frame hrec k old new _ _ _ _ hg2)
+        cases r2 with
+        | error e =>
+          simp only at h
+          injection h with h; injection h with h1 _; subst h1
+          exact f2
+        | ok act2 =>
+          simp only at h
+          injection h with h; injection h with h1 _; subst h1
+          exact f2.trans (Frame.of_eq rfl rfl rfl)
 
 /-- G10 repaired: an assignment (rejected, raising in a handler, or completed) leaves the record alone -/
 theorem assignT_frame {rec : Rec} (hrec : FrameRec rec) {k : Key} {v : V} {s s' : St} {r : R}
@@ -305,12 +319,13 @@ theorem assignT_frame {rec : Rec} (hrec : FrameRec rec) {k : Key} {v : V} {s s' 
   split at h
   · injection h with h; injection h with h1 _; subst h1
     exact Frame.refl _
-  · cases hg : rec (.notify k (s.store k) v) s with
+  · cases hg : rec (.notify k (s.store k) v) { s with store := fun k' => if k' = k then v else s.store k' } with
     | none => simp [hg] at h
     | some res =>
       obtain ⟨s1, r1⟩ := res
       rw [hg] at h
-      have f1 := hrec _ _ _ _ hg
+      have f0 : Frame s { s with store := fun k' => if k' = k then v else s.store k' } := Frame.of_eq rfl rfl rfl
+      have f1 := f0.trans (hrec _ _ _ _ hg)
       cases r1 with
       | err e =>
         simp only at h
@@ -319,7 +334,7 @@ theorem assignT_frame {rec : Rec} (hrec : FrameRec rec) {k : Key} {v : V} {s s' 
       | ok u =>
         simp only at h
         injection h with h; injection h with h1 _; subst h1
-        exact f1.trans (Frame.of_eq rfl rfl rfl)
+        exact f1
 
 /-- an evaluation entered from a state `s1` that has the context of `s0` (`saved` = its `CURRENT_COMPUTED`) -/
 theorem evalBody_frame {rec : Rec} (hrec : FrameRec rec) {c : Nat} {tree : Tree} {s0 s1 s' : St} {r : R}
